@@ -378,6 +378,13 @@ def c11(tier):
     if tier == 'thorough':
         product_run_named(chk, ws, prof, wide, depth=3, values='core4', full_n=0, label="wide-d3")
         product_run_named(chk, ws, prof, [s.name for s in structs if 12 < s.n <= 16], depth=0, values='small', full_n=16, label="fixedpoint16")
+    # accepted declarations whose values no property fixes (range lists naming a bit twice): the register view must still hold -
+    # no panic, nothing above bit N-1 that the re-wrapped object does not have
+    so = [s for s in sets.selfoverlap_structs('thorough') if s.n not in NATIVE]
+    wso = build_set(chk, "selfov-arb", so, prof)
+    if wso:
+        repso = B.run(wso, prof, 'sweep', ['--ops', 'all', '--full-n', 16, '--full-w', 8, '--strict-storage', 1, '--panic-only', 1], out_name=f"report-C11-selfov-{prof}.json")
+        chk.add_report(repso, f"sweep:selfoverlap:{prof}")
     acc = [s for s in beyond_accepted(chk, tier) if s.n not in NATIVE]
     if acc:
         wsb = build_set(chk, f"beyond-{tier}", acc, prof)
